@@ -186,6 +186,10 @@ def sessStep (s : S) (f : List String) : S × List String :=
       let c : Cfg := { s.cfg with userName := user, password := pass, keepAlive := ka, will := w }
       ({ s with cfg := c }, [])
     | _, _, _, _, _ => (s, ["bad-op cfgx"])
+  | ["rwait", mn, mx] =>
+    match mn.toInt?, mx.toInt? with
+    | some mn, some mx => ({ s with cfg := { s.cfg with reconnectWaitMin := mn, reconnectWaitMax := mx } }, [])
+    | _, _ => (s, ["bad-op rwait"])
   | ["initx", cid, variant] =>
     -- InitSession with a Config it must refuse: nothing is stored, the state stays as it was
     let base : Cfg := { atLeastOnceMax := 4, exactlyOnceMax := 4 }
@@ -365,8 +369,8 @@ def sessStep (s : S) (f : List String) : S × List String :=
     | none => (s, ["bad-op txn"])
   | ["backoff"] =>
     if s.parked || s.parkedDial || s.parkedHs.isSome then (s, ["backoff busy"]) else
-    -- the harness configures ReconnectWaitMin 3 s and ReconnectWaitMax 20 s
-    match s.readBackoff s.lastRs 3000000000 20000000000 with
+    -- the harness configures ReconnectWaitMin 3 s and ReconnectWaitMax 20 s unless the script says otherwise (`rwait`)
+    match s.readBackoff s.lastRs (waitNorm s.cfg.reconnectWaitMin s.cfg.reconnectWaitMax).1 (waitNorm s.cfg.reconnectWaitMin s.cfg.reconnectWaitMax).2 with
     | (s, .now) => (s, ["backoff now"])
     | (s, .never) => (s, ["backoff never"])
     | (s, .idle ns) => (s, [s!"backoff {ns / 1000000}ms"])
